@@ -115,7 +115,7 @@ func coverStage(name string, cats []*cat.Catalog, b Bounds, timeout time.Duratio
 		return nil, err
 	}
 	mod := "---- MODULE MCGen ----\nEXTENDS DigGen\n====\n"
-	cfg := fmt.Sprintf("SPECIFICATION GenSpec\nCONSTANTS\n  MaxInv = %d\n  MaxFaults = %d\n  FaultKinds = %s\nINVARIANTS %s\nPROPERTIES %s\n%sCHECK_DEADLOCK FALSE\n",
+	cfg := fmt.Sprintf("SPECIFICATION GenSpec\nCONSTANTS\n  MaxInv = %d\n  MaxFaults = %d\n  FaultKinds = %s\n  FreeOrder = FALSE\nINVARIANTS %s\nPROPERTIES %s\n%sCHECK_DEADLOCK FALSE\n",
 		b.MaxInv, b.MaxFaults, tlaStrSet(b.FaultKinds), strings.Join(allInvariants, " "), strings.Join(allActionProps, " "), map[bool]string{false: "VIEW GenView\n", true: ""}[b.NoView])
 	os.WriteFile(filepath.Join(dir, "MCGen.tla"), []byte(mod), 0o644)
 	os.WriteFile(filepath.Join(dir, "MCGen.cfg"), []byte(cfg), 0o644)
